@@ -33,10 +33,8 @@ type Case struct {
 	Config Config            `json:"config"`
 	Files  map[string]string `json:"files"` // schema files + hand-written Go files (gqlgen.yml is derived)
 	Atoms  []Atom            `json:"atoms,omitempty"`
-	// projects with a cmd/harness program: the request it sends and the response body the GraphQL
-	// semantics prescribe
-	HarnessReq  string `json:"harness_request,omitempty"`
-	HarnessWant string `json:"harness_want,omitempty"`
+	// projects with a cmd/harness program: which request / reference tree (see harnessSpec)
+	Harness string `json:"harness,omitempty"`
 }
 
 // Result is what the oracle sees.
@@ -301,18 +299,16 @@ func runHarness(dir string, c *Case) (runtime string, flake string) {
 		probe.Cleanup()
 		common.Broken("cannot link the harness of %s: %v\n%s", id, err, out)
 	}
-	out, _ := probe.Run(dir, nil, bin, c.HarnessReq)
+	req, want, inner := harnessSpec(c.Harness)
+	out, _ := probe.Run(dir, nil, bin, req)
 	if strings.HasPrefix(out, "HARNESS:") {
 		probe.Cleanup()
 		common.Broken("harness of %s failed:\n%s", id, out)
 	}
-	if strings.TrimSpace(out) == c.HarnessWant {
-		return "", ""
+	if d := compareResponse(out, want, inner); d != "" {
+		return "generated server: " + d, ""
 	}
-	if len(out) > 600 {
-		out = out[:600] + "…"
-	}
-	return "generated server answered " + strings.TrimSpace(out) + " ; arguments are matched by name, expected " + c.HarnessWant, ""
+	return "", ""
 }
 
 // memo caches results by case id so that minimisation never re-runs a project.
@@ -404,15 +400,21 @@ func runAll(c *common.Check, cases []*Case, keep bool, grace bool) []*Result {
 
 func featureCase(cfg Config) *Case {
 	files := featureFiles()
-	if cfg.Layout.Models == "autobind" {
+	cs := &Case{ID: "feature|" + cfg.ID(), Kind: "feature", Schema: "feature", Config: cfg, Files: files, Harness: "bounds"}
+	switch cfg.Layout.Models {
+	case "autobind":
 		for k, v := range handFiles() {
 			files[k] = v
 		}
+		cs.Harness = "bounds+calc"
+	case "autobind-self":
+		if cfg.Layout.ModelPkg == "same" {
+			files["graph/hand_models.go"] = handSelf("graph")
+		} else {
+			files["graph/model/hand_models.go"] = handSelf("model")
+		}
 	}
-	cs := &Case{ID: "feature|" + cfg.ID(), Kind: "feature", Schema: "feature", Config: cfg, Files: files}
-	if cfg.Layout.Models == "autobind" {
-		cs.HarnessReq, cs.HarnessWant = harnessRequest, harnessWant
-	}
+	files["cmd/harness/main.go"] = harnessSource(true, cs.Harness == "bounds+calc")
 	return cs
 }
 
@@ -426,7 +428,7 @@ func smallCase(name string, files map[string]string, l Layout) *Case {
 	cfg := Config{Layout: l}
 	cs := &Case{ID: "small-" + name + "|" + cfg.ID(), Kind: "small", Schema: "small-" + name, Config: cfg, Files: files}
 	if name == "methodorder" {
-		cs.HarnessReq, cs.HarnessWant = methodOrderRequest, methodOrderWant
+		cs.Harness = "methodorder"
 	}
 	return cs
 }
@@ -470,6 +472,9 @@ func quickCases() []*Case {
 		featureCase(Config{Layout: Layout{"single-file", "follow-schema", 0, "generated", "same"}, Dev: []string{"skip_mod_tidy"}}),
 		featureCase(Config{Layout: mainB, Dev: []string{"skip_mod_tidy", "resolver.preserve_resolver"}}),
 		smallCase("methodorder", smallFeatureSchemas()["methodorder"], mainF),
+		// autobind names the package that also receives models_gen.go (api/testdata/default's layout)
+		featureCase(Config{Layout: Layout{"single-file", "single-file", 0, "autobind-self", "separate"}}),
+		featureCase(Config{Layout: Layout{"follow-schema", "follow-schema", 2, "autobind-self", "same"}, Dev: []string{"skip_mod_tidy"}}),
 	)
 	for _, p := range namingProjects(false) {
 		l := mainA
@@ -483,14 +488,15 @@ func quickCases() []*Case {
 
 // coveringLayouts: 12 of the 48 layouts such that every pair of values of two different layout
 // dimensions occurs together: every (exec, resolver) combination with two of the four rows of the
-// orthogonal array over (worker_limit, models, model package).
+// six-row array over (worker_limit, models, model package) that itself covers every pair of their values.
 func coveringLayouts() []Layout {
-	rows := [][3]string{{"0", "generated", "separate"}, {"0", "autobind", "same"}, {"2", "generated", "same"}, {"2", "autobind", "separate"}}
+	rows := [][3]string{{"0", "generated", "separate"}, {"0", "autobind", "same"}, {"2", "generated", "same"},
+		{"2", "autobind", "separate"}, {"0", "autobind-self", "separate"}, {"2", "autobind-self", "same"}}
 	var out []Layout
 	i := 0
 	for _, e := range []string{"single-file", "follow-schema"} {
 		for _, r := range []string{"single-file", "follow-schema", "none"} {
-			for _, k := range []int{i % 4, (i + 2) % 4} {
+			for _, k := range []int{i % 6, (i + 2) % 6} {
 				w := 0
 				if rows[k][0] == "2" {
 					w = 2
@@ -939,8 +945,8 @@ func bounds(tier string, cases []*Case) map[string]any {
 		"distinct_schemas":  len(schemas),
 		"distinct_configs":  len(cfgs),
 		"max_deviations":    2,
-		"thorough_product":  "all 48 layouts (exec x resolver x worker_limit x models x model package) x defaults + 12 pairwise-covering layouts x (exactly 1 deviation) + 2 main layouts x (exactly 2 deviations) + small feature schemas x 3 layouts + naming projects x 2 layouts",
-		"quick_selection":   "14 feature-schema configurations (0 to 2 deviations; every value of every layout dimension incl. models in the exec package) + the equal-typed method-order project + packed naming projects",
+		"thorough_product":  "all 72 layouts (exec x resolver x worker_limit x models{generated, autobind hand package, autobind the model package itself} x model package) x defaults + 12 pairwise-covering layouts x (exactly 1 deviation) + 2 main layouts x (exactly 2 deviations) + small feature schemas x 3 layouts + naming projects x 2 layouts",
+		"quick_selection":   "16 feature-schema configurations (0 to 2 deviations; every value of every layout dimension incl. models in the exec package) + the equal-typed method-order project + packed naming projects",
 		"feature_schema":    "4 files: objects, interfaces incl. interface-implements-interface, unions, enums, inputs (recursive, @oneOf), nested list/non-null wrappers, defaults of every kind, custom directives on all 19 locations, built-in directives, subscription, extend type/enum/union/input across files, descriptions with quotes/backticks/comment terminators",
 	}
 }
